@@ -38,7 +38,7 @@ functions on it and compares with what the REAL derived impls and the real crate
                `inScopeU` must agree with the schema-side exclusion `noneAtUnionRow` (`C04_inScopeU_row`, evaluated).
 
 Types outside the grammar of the theorems are tagged `bridge:outside-fragE:<reason>` (borrowed-target, root-tuple-struct,
-root-newtype-struct, root-tuple, empty-root-struct) and counted; (a), (b) and the reader-model comparison of (c) still run
+root-newtype-struct, root-tuple, empty-root-struct, serialize-deserialize-asymmetric) and counted; (a), (b) and the reader-model comparison of (c) still run
 on them (with the shipped target for borrowed positions); chain differences are tags there, not disagreements.
 -/
 namespace Driver.RoundtripBridge
